@@ -330,10 +330,13 @@ impl Prop for C04 {
     fn meta() -> Meta {
         Meta {
             level: "exploration",
-            rule: "Histories of 1-200 store operations over a per-run key pool that always may contain 0, 2^64-1, 2^64-2, 2^63, two adjacent keys and random u64 keys, spelled plainly, with leading zeros (up to 25 digits) or leading blanks/tabs: add, replace, delete (bare number), failed edit (illegal character, unterminated string, 1.2.3, the numerals 2^64 .. 2^64+3, bare or with text, which are not line numbers); bodies are PRINT / REM / STOP / a line of statement separators only / an assignment to a variable named like a command (TRACE, STATS, LIST, RUN, NEW); one entry in six is typed without a blank between number and statement; failed edits include a number followed only by Unicode blanks (NBSP, U+3000, VT, LF), interleaved with LIST, RUN (with and without tracing), RUN broken after k ticks, and CONT — so that edits also arrive at a STOP breakpoint and at a host break in the middle of a run. Oracle: BTreeMap<u64,(body,tag)> reference; LIST must equal the map rendered in ascending key order AND the LIST of a twin interpreter that only ever received the final pairs once each in ascending order; RUN must print the tags (and trace the keys) in ascending key order up to the first STOP, CONT continues after it. Every body carries a unique tag so that each listed/printed line is attributable to one write. distinct_nontrivial = distinct op-sequence hashes among histories that end with >= 3 stored lines and performed >= 1 replace/delete.",
+            rule: "Histories of 1-200 store operations over a per-run key pool that always may contain 0, 2^64-1, 2^64-2, 2^63, two adjacent keys and random u64 keys, spelled plainly, with leading zeros (up to 25 digits) or leading blanks/tabs: add, replace, delete (bare number), failed edit (illegal character, unterminated string, 1.2.3, the numerals 2^64 .. 2^64+3, bare or with text, which are not line numbers); bodies are PRINT / REM / STOP / a line of statement separators only / an assignment to a variable named like a command (TRACE, STATS, LIST, RUN, NEW); one entry in six is typed without a blank between number and statement; failed edits include a number followed only by Unicode blanks (NBSP, U+3000, VT, LF) and apostrophe comments, interleaved with LIST, RUN (with and without tracing), RUN broken after k ticks, and CONT — so that edits also arrive at a STOP breakpoint and at a host break in the middle of a run. Oracle: BTreeMap<u64,(body,tag)> reference; LIST must equal the map rendered in ascending key order AND the LIST of a twin interpreter that only ever received the final pairs once each in ascending order; RUN must print the tags (and trace the keys) in ascending key order up to the first STOP, CONT continues after it. Every body carries a unique tag so that each listed/printed line is attributable to one write. distinct_nontrivial = distinct op-sequence hashes among histories that end with >= 3 stored lines and performed >= 1 replace/delete.",
             real: &["abasic-core Interpreter program store (ProgramLines: HashMap + BTreeSet), line-number parser, LIST, RUN line ordering"],
             stub: &["the host", "BTreeMap reference model"],
-            assumptions: &["bodies are PRINT \"k<tag>\" / REM k<tag> / STOP only: the property is about the store, not about statement semantics (C03)"],
+            assumptions: &[
+                "bodies are simple statements (PRINT \"k<tag>\", REM, STOP, separators, one assignment): the property is about the store, not about statement semantics (C03)",
+                "which texts fail to tokenize is taken from the pinned dialect: an illegal character outside a string (%, #, a non-ASCII letter, an apostrophe, a blank that only Unicode calls blank), an unterminated string, a malformed numeral; a change of dialect that makes one of them legal would have to be mirrored here",
+            ],
             reach: &[
                 "reach.key_u64_max_stored",
                 "reach.key_0_stored",
